@@ -322,14 +322,19 @@ func evaluateOperatorValue(node *ExprNode, data map[string]any) (any, error) {
 
 	// Check if it's a comparison operator
 	if isComparisonOperator(node.Value) {
-		leftValue, err := evaluateNodeValue(node.Left, data)
+		leftValue, _, err := evaluateNodeValueWithNull(node.Left, data)
 		if err != nil {
 			return nil, err
 		}
 
-		rightValue, err := evaluateNodeValue(node.Right, data)
+		rightValue, _, err := evaluateNodeValueWithNull(node.Right, data)
 		if err != nil {
 			return nil, err
+		}
+
+		// A comparison with a NULL or missing operand is NULL
+		if leftValue == nil || rightValue == nil {
+			return nil, nil
 		}
 
 		// Execute comparison
@@ -347,8 +352,9 @@ func evaluateOperatorValue(node *ExprNode, data map[string]any) (any, error) {
 		return nil, err
 	}
 
-	// If any operand is NULL, result is NULL
-	if leftIsNull || rightIsNull {
+	// If any operand is NULL, result is NULL (a nested operator reports its NULL
+	// result as a nil value)
+	if leftIsNull || rightIsNull || left == nil || right == nil {
 		return nil, nil
 	}
 
